@@ -89,6 +89,7 @@ def run(chk: harness.Check):
     d2_shape(chk, F)
     d3_guard(chk, F)
     d4_designated(chk, F)
+    d5_fit_range(chk, F)
     chk.analysed["facts"] = th
 
 
@@ -380,3 +381,57 @@ def d4_designated(chk, F):
     chk.expect(ok, "C09.D4-designated", "fit_fraction", f"{g.file}:{g.line}",
                "fit_fraction no longer draws its candidate units from converter.best[unit.physical_quantity].conversions(system)",
                sample="fit_fraction candidates: converter.best[unit.physical_quantity].conversions(system)")
+
+
+def d5_fit_range(chk, F):
+    """fit_fraction re-expresses a range in the selected unit: both ends of the new Value::Range must be values
+    converted to that unit (every alternative of `end` goes through convert_f64 of the old end)."""
+    ff = [g for g in F.funcs.values() if g.key.endswith("::fit_fraction") and "Quantity" in g.key and not g.is_closure()]
+    if len(ff) != 1:
+        return
+    g = ff[0]
+    from cfgq import aggregates
+    n = 0
+    for f2, i, s_, d in aggregates(F, g.key, "quantity::Value", "Range"):
+        if f2 is not g:
+            continue
+        n += 1
+        where = f"{g.file}:{s_.get('line')}"
+        for fld in ("start", "end"):
+            e = resolve(g, d[fld])
+            raw = _unconverted(e)
+            chk.expect(not raw, "C09.D5-fit-range", f"fit_fraction|Range.{fld}", where,
+                       f"when a range is fitted to a fraction in another unit, its {fld} can keep the number it had in the old unit ({raw[0][:80] if raw else ''}): "
+                       "the range would mix two units", sample=f"{where}: Range.{fld} always derives from a convert_f64(..) to the new unit")
+    chk.floor("C09.D5-fit-range", "Range constructions in fit_fraction", n, 1, f"{g.file}:{g.line}")
+
+
+def _unconverted(e, depth=0):
+    """leaf renderings of the old quantity's own numbers reachable without passing a convert_f64 call"""
+    if not isinstance(e, tuple) or depth > 40:
+        return []
+    t = e[0]
+    if t == "call":
+        if e[1].endswith("convert_f64"):
+            return []
+        out = []
+        for a in e[2]:
+            if a[0] == "agg" and a[1] == "closure":
+                continue
+            out += _unconverted(a, depth + 1)
+        return out
+    if t == "place":
+        if any(p.startswith("as Range") or p.startswith("as Number") for p in e[2]) and "self" in show(e[1], -50):
+            return [show(e, -50)]
+        return _unconverted(e[1], depth + 1)
+    if t in ("ref", "discr", "repeat"):
+        return _unconverted(e[1], depth + 1)
+    if t == "phi":
+        return [x for a in e[1] for x in _unconverted(a, depth + 1)]
+    if t == "agg":
+        return [x for _, a in e[4] for x in _unconverted(a, depth + 1)]
+    if t == "bin":
+        return _unconverted(e[2], depth + 1) + _unconverted(e[3], depth + 1)
+    if t in ("un", "cast"):
+        return _unconverted(e[2], depth + 1)
+    return []
